@@ -370,9 +370,23 @@ Json genGraphSession(Rng &r, const std::string &tier, const std::string &what) {
             bool w1 = wide && r.chance(0.3), h1 = wide && r.chance(0.15);
             nj.push((double)(w1 ? 60 + r.below(15) * 10 : 20 + r.below(4) * 10)); nj.push((double)(h1 ? 60 + r.below(10) * 10 : 20 + r.below(3) * 10)); nodes.push(nj); }
         int style = (int)r.below(4);        // tree, cycle-ish, tree + extra edges, hub
+        if (n >= 9 && r.chance(0.4)) {
+            // style 4: a hub on two cycles (all four sides of the hub taken by core edges) that also carries a small tree -- the
+            // tree can then only be placed in an ordinal direction
+            style = 4;
+            int c1 = 3, c2 = 3;                                   // cycle lengths besides the hub
+            int a0 = 1, b0 = 1 + c1;                              // cycle A: 0-1-2-3-0, cycle B: 0-4-5-6-0
+            for (int i = 0; i < c1; i++) es.insert({i == 0 ? 0 : a0 + i - 1, a0 + i}); es.insert({0, a0 + c1 - 1});
+            for (int i = 0; i < c2; i++) es.insert({i == 0 ? 0 : b0 + i - 1, b0 + i}); es.insert({0, b0 + c2 - 1});
+            if (r.chance(0.5)) es.insert({a0, a0 + c1 - 1});      // a chord
+            int t0 = 1 + c1 + c2;                                 // tree hanging off the hub: its first node, then random attachments below it
+            es.insert({0, t0});
+            for (int i = t0 + 1; i < n; i++) es.insert({t0 + (int)r.below(i - t0), i});
+        } else {
         for (int i = 1; i < n; i++) { int j = style == 3 ? (r.chance(0.6) ? 0 : (int)r.below(i)) : (int)r.below(i); es.insert({j, i}); }
         int extra = style == 0 ? 0 : style == 1 ? 1 : (int)r.below(n / 2 + 1);
         for (int k = 0; k < extra; k++) { int a = (int)r.below(n), b = (int)r.below(n); if (a == b) continue; if (a > b) std::swap(a, b); es.insert({a, b}); }
+        }
     } else {
         n = r.range(2, tier == "thorough" ? 60 : 30);
         int sizes = what == "peel" ? (int)r.below(3) : 0;      // uniform; mildly varied; some nodes several times larger
@@ -395,7 +409,8 @@ Json genGraphSession(Rng &r, const std::string &tier, const std::string &what) {
     Json ops = Json::arr();
     Json o = Json::obj(); o.set("op", what);
     if (what == "hola") {
-        if (r.chance(0.5)) o.set("useACAforLinks", r.chance(0.5));
+        if (cfg.str("style", "") == "hola" && nodes.size() >= 9 && edges.size() >= nodes.size() + 1 && r.chance(0.5)) o.set("useACAforLinks", false);   // chains for links: no ACA destress to repair a misplaced tree
+        else if (r.chance(0.5)) o.set("useACAforLinks", r.chance(0.5));
         if (r.chance(0.4)) o.set("do_near_align", r.chance(0.5));
         if (r.chance(0.2)) o.set("preferConvexTrees", r.chance(0.5));
         if (r.chance(0.2)) o.set("defaultTreeGrowthDir", (long)r.below(4));
